@@ -237,3 +237,30 @@ add('C19', 'prefix-split-whitespace', TFI, "clean_password = ' '.join(clean_pass
 add('C19', 'hex-decoded-as-utf8', TFI, "bytes.fromhex(clean_password[5:-1]).decode(self.encoding)", "bytes.fromhex(clean_password[5:-1]).decode('utf-8')", 'fire', 'C19.R3')
 add('C19', 'bad-count-raises', TFI, "                    except ValueError:\n                        continue", "                    except ValueError:\n                        raise", 'fire', 'C19.R4')
 add('C19', 'invalid-line-ends-pass', TFI, "                if not check_valid(clean_password):\n                    continue", "                if not check_valid(clean_password):\n                    break", 'fire', 'C19.R4')
+
+# ---- C05 ------------------------------------------------------------------------------------------------------
+DIG = 'lib_trainer/detection_rules/digit_detection.py'
+YEAR = 'lib_trainer/detection_rules/year_detection.py'
+CTX_ = 'lib_trainer/detection_rules/context_sensitive_detection.py'
+OTH = 'lib_trainer/detection_rules/other_detection.py'
+KB = 'lib_trainer/detection_rules/keyboard_walk.py'
+MWD = 'lib_trainer/detection_rules/multiword_detector.py'
+add('C05', 'splice-at-i+1', DIG, "                section_list[index:index] = parsing", "                section_list[index+1:index+1] = parsing", 'fire', 'C05.R1')
+add('C05', 'splice-as-slice-replace', DIG, "                del section_list[index]\n                section_list[index:index] = parsing", "                section_list[index:index+1] = parsing", 'silent')
+add('C05', 'detector-on-labelled-sections', OTH, "        if section_list[index][1] is None:", "        if True:", 'fire', 'C05.R5')
+add('C05', 'year-detector-on-labelled-sections', YEAR, "        if section_list[index][1] is None:", "        if section_list[index][1] != 'W':", 'fire', 'C05.R1')
+add('C05', 'index-skips-two', YEAR, "                continue\n\n        index += 1", "                continue\n\n        index += 2", 'fire', 'C05.R1')
+add('C05', 'digit-label-len+1', DIG, "'D' + str(len(found_digit))", "'D' + str(len(found_digit) + 1)", 'fire', 'C05.R2')
+add('C05', 'digit-suffix-from-end_pos', DIG, "parsing.append((section[0][end_pos+1:],None))", "parsing.append((section[0][end_pos:],None))", 'fire', 'C05.R2')
+add('C05', 'digit-prefix-guard-dropped', DIG, "                if start_pos !=0:\n                    parsing.append((section[0][0:start_pos],None))", "                parsing.append((section[0][0:start_pos],None))", 'fire', 'C05.R2')
+add('C05', 'digit-suffix-guard-off-by-one', DIG, "if end_pos != len(section[0]) -1:", "if end_pos != len(section[0]):", 'fire', 'C05.R2')
+add('C05', 'digit-suffix-guard-equivalent', DIG, "if end_pos != len(section[0]) -1:", "if end_pos + 1 < len(section[0]):", 'silent')
+add('C05', 'year-slice-5', YEAR, "parsing.append((working_string[start_index:start_index+4],'Y1'))", "parsing.append((working_string[start_index:start_index+5],'Y1'))", 'fire', 'C05.R2')
+add('C05', 'context-suffix-guard-le', CTX_, "if start_index + len(replacement) < len(working_string):", "if start_index + len(replacement) <= len(working_string):", 'fire', 'C05.R2')
+add('C05', 'other-before-digit', PARS, [("        found_digit_strings = digit_detection(section_list)\n", "        found_digit_strings_ = None\n"), ("        found_other_strings = other_detection(section_list)\n", "        found_other_strings = other_detection(section_list)\n        found_digit_strings = digit_detection(section_list)\n")], None, 'fire', 'C05.R5')
+add('C05', 'other-labels-wrong-length', OTH, "'O' + str(len(section_list[index][0]))", "'O' + str(len(section_list[index]))", 'fire', 'C05.R5')
+add('C05', 'keyboard-threshold-3', KB, "def detect_keyboard_walk(password, min_keyboard_run=4):", "def detect_keyboard_walk(password, min_keyboard_run=3):", 'fire', 'C05.R8')
+add('C05', 'multiword-overlapping-parts', MWD, "return [alpha_string[0:index], alpha_string[index:]]", "return [alpha_string[0:index], alpha_string[index-1:]]", 'fire', 'C05.R4')
+add('C05', 'multiword-threshold-gt', MWD, "            if self._get_count(alpha_string[0:index]) >= self.threshold:", "            if self._get_count(alpha_string[0:index]) > 0:", 'fire', 'C05.R4')
+add('C05', 'counters-swapped', PARS, [("self._update_counter_len_indexed(self.count_digits, found_digit_strings)", "self._update_counter_len_indexed(self.count_other, found_digit_strings)")], None, 'fire', 'C05.R6')
+add('C05', 'email-index-space-known-only', 'lib_trainer/detection_rules/email_detection.py', "    working_string = section[0].lower()", "    working_string = section[0].lower()  ", 'silent')
